@@ -1200,8 +1200,8 @@ class _LoopFn:
         assigned = self._assigned(s.body)
         if lst in assigned or assigned & set(self.k.get('ignore', ())):
             raise CannotTranslate('the list iterated over or an opaque argument is assigned in the loop')
-        names = [n for n, t in env.items() if t != 'Opaque']
-        fixed = [n for n in names if n not in assigned]
+        names = sorted(n for n, t in env.items() if t != 'Opaque')     # alphabetical: the signature of the loop does not
+        fixed = [n for n in names if n not in assigned]                # depend on the order of the assignments before it
         carried = [n for n in names if n in assigned]
         gname = f'{self.name}.loop'
         lt = _LOOP_LEAN_TYPES
